@@ -50,22 +50,32 @@ let () =
       match split_ws head with
       | id :: "HIST" :: fields ->
         (try
-          let log = ref [] and final = ref "?" in
+          let log = ref [] and logkv = ref [] and final = ref "?" in
           List.iter (fun f ->
             match cut_on "=" f with
             | Some ("log", v) ->
-              if v <> "-" && v <> "" then log := List.map n_of_string (String.split_on_char ',' v)
+              if v <> "-" && v <> "" then begin
+                let ents = List.map (fun x ->
+                  match String.split_on_char ':' x with
+                  | [i; k; v] -> (n_of_string i, (n_of_string k, n_of_string v))
+                  | _ -> failwith "bad log entry") (String.split_on_char ',' v) in
+                log := List.map fst ents; logkv := ents
+              end
             | Some ("final", v) -> final := v
             | _ -> ()) fields;
           let obs = ref [] in
           let h = List.filter_map (fun e -> parse_event e obs)
                     (if body = "" then [] else split_str " ; " body) in
           let obs_l = List.rev !obs in
-          (* as the Go side: entries whose operation is not in the history are dropped
-             (only happens while the shrinker removes events) *)
+          (* as the Go side (normalise): a log entry whose invocation is not in the
+             history (only while the shrinker removes events) is a write invoked
+             before everything else that never got an answer *)
           let invoked = Hashtbl.create 64 in
           List.iter (function Inv (i, _) -> Hashtbl.replace invoked i () | _ -> ()) h;
-          log := List.filter (fun i -> Hashtbl.mem invoked i) !log;
+          let front = List.filter_map (fun (i, (k, v)) ->
+            if Hashtbl.mem invoked i then None
+            else begin Hashtbl.replace invoked i (); Some (Inv (i, OpWrite (k, v))) end) !logkv in
+          let h = front @ h in
           Printf.printf "%s WF %s\n" id (if wf_histb h then "true" else "false");
           Printf.printf "%s LIN %s\n" id (if check_log h !log obs_l then "ok" else "bad");
           Printf.printf "%s FINAL %s\n" id (show_state (log_state h !log))
